@@ -8,6 +8,7 @@ import (
 	"path/filepath"
 	"runtime"
 	"sort"
+	"strings"
 	"sync"
 	"time"
 
@@ -228,6 +229,63 @@ func init() {
 		}
 	}}
 
+	// det.dupid: style entries stored under distinct keys, several of which may carry the same Style.ID (Model/SSAStyleKeys):
+	// twenty writes must agree, and the Style lines are those of the model (the entry with the greatest key wins)
+	streams["det.dupid"] = stream{exec: func(a []string) string {
+		build := func() *astisub.Subtitles {
+			s := astisub.NewSubtitles()
+			for _, t := range a {
+				f := strings.Split(t, ",")
+				s.Styles[f[0]] = &astisub.Style{ID: f[1], InlineStyle: &astisub.StyleAttributes{SSAFontName: f[2]}}
+			}
+			s.Items = append(s.Items, &astisub.Item{StartAt: time.Second, EndAt: 2 * time.Second, Lines: []astisub.Line{{Items: []astisub.LineItem{{Text: "x"}}}}})
+			return s
+		}
+		var first []byte
+		for i := 0; i < 20; i++ {
+			var b bytes.Buffer
+			if err := build().WriteToSSA(&b); err != nil {
+				return "err"
+			}
+			if first == nil {
+				first = b.Bytes()
+			} else if !bytes.Equal(first, b.Bytes()) {
+				return "differs"
+			}
+		}
+		var out []string
+		for _, l := range strings.Split(string(first), "\n") {
+			if strings.HasPrefix(l, "Style: ") {
+				f := strings.Split(strings.TrimPrefix(l, "Style: "), ",")
+				if len(f) != 2 {
+					return "columns"
+				}
+				out = append(out, f[0]+"="+f[1])
+			}
+		}
+		return strings.Join(out, " ")
+	}, gen: func(c *ctx) {
+		c.do("det.dupid a,x,A b,x,B") // the witness of Props/C19c.pinned_depends_on_map_order (D32)
+		c.do("det.dupid b,x,B a,x,A")
+		r := newRng(c.seed, "det.dupid")
+		n := 400
+		if c.thorough {
+			n = 20000
+		}
+		for i := 0; i < n; i++ {
+			keys := []string{"a", "B", "c", "d", "e", "ee", "f"}
+			for i := len(keys) - 1; i > 0; i-- {
+				j := r.intn(i + 1)
+				keys[i], keys[j] = keys[j], keys[i]
+			}
+			var toks []string
+			for k := 0; k < 1+r.intn(6); k++ {
+				toks = append(toks, fmt.Sprintf("%s,%s,F%d", keys[k], []string{"x", "y", "Z", "x"}[r.intn(4)], k))
+			}
+			c.do("det.dupid " + strings.Join(toks, " "))
+		}
+	}}
+
 	// det.write: the same list written 50 times in this process, with all writer orders: identical bytes, list untouched
 	streams["det.write"] = stream{exec: func(a []string) string {
 		s, _ := parseCanon(a)
@@ -395,6 +453,9 @@ func genStyledSubs(r *rng) *astisub.Subtitles {
 		}
 		if r.chance(1, 4) {
 			sa.WebVTTTags = []astisub.WebVTTTag{{Name: "c", Classes: []string{"red"}}, {Name: "lang", Annotation: "en"}}
+			if r.chance(1, 2) { // a class listed twice among others: the classes are written as they are listed
+				sa.WebVTTTags[0].Classes = [][]string{{"red", "loud", "big", "red"}, {"a", "a"}, {"z", "y", "x", "w", "z", "v"}}[r.intn(3)]
+			}
 		}
 		if r.chance(1, 4) {
 			sa.SSAEffect = []string{"{\\i1}", "{\\an8}", "{\\b1\\c&HFF&}"}[r.intn(3)]
